@@ -244,6 +244,28 @@ class VerSim(Sim):
         for i, a in enumerate(self.members0):
             self.codes[a] = 'old' if i < n_old else 'new'
         self._starting_code = None
+        # conf.onCodeVersionChanged (rarely used): nothing, a callback that only counts, one that raises, one that issues a
+        # replicated call at once (e.g. writes an upgrade marker)
+        rv = random.Random(h32('vcb', seed))
+        self.vcb = dict((a, rv.choice(['none', 'count', 'raise', 'call', 'call'])) for a in self.members0)
+        self.vcb_rng = rv
+
+    def make_conf(self, key):
+        kw = Sim.make_conf(self, key)
+        how = self.vcb.get(key, 'none')
+        if how != 'none':
+            def on_version(old, new, key=key, how=how):
+                p = self.procs.get(key)
+                self.mon.sit['version_callback_' + how] += 1
+                if how == 'raise':
+                    raise RuntimeError('onCodeVersionChanged callback of the application failed')
+                if how == 'call' and p is not None and not p.dead and p.obj is not None:
+                    a = self.final_command(p, self.vcb_rng)
+                    if a[0] == 'S':
+                        self.do_submit(a)
+                        self.mon.sit['call_from_version_callback'] += 1
+            kw['onCodeVersionChanged'] = on_version
+        return kw
 
     def user_class(self):
         return self.classes[self._starting_code][0]
@@ -273,12 +295,12 @@ class VerSim(Sim):
         target = 'kv' if o == 'obj' else self.prog['owners'].index(o) - 1
         return ('S', p.key, target, n, ('$UID',))
 
-    def final_command(self, p):
+    def final_command(self, p, rng=None):
         enabled = p.obj.getCodeVersion()
         cands = sorted(set((o, n) for (o, n, v) in self.prog[p.code] if v <= enabled))
         if not cands:
             return ('T', p.key, 0.0)
-        o, n = cands[0]
+        o, n = cands[0] if rng is None else rng.choice(cands)
         target = 'kv' if o == 'obj' else self.prog['owners'].index(o) - 1
         return ('S', p.key, target, n, ('$UID',))
 
